@@ -532,7 +532,7 @@ func rootAlloc(v ssa.Value) (*ssa.Alloc, bool) {
 
 // assertSteps checks the per-iteration clauses of a loop at the back edge: old() refers to the state at the
 // start of this iteration (after the invariants were assumed).
-func (fr *frame) assertSteps(st *PState, b *ssa.BasicBlock, ord int) {
+func (fr *frame) assertSteps(st *PState, b *ssa.BasicBlock, ord int, latch *ssa.BasicBlock) {
 	tc := fr.top
 	steps := fr.contract.Steps[ord]
 	if len(steps) == 0 {
@@ -544,6 +544,14 @@ func (fr *frame) assertSteps(st *PState, b *ssa.BasicBlock, ord int) {
 	}
 	env := fr.loopEnv(st, b).Goal()
 	env.old = snap
+	// plain locals of the body as they stand at the end of the iteration (range variables, temporaries)
+	if latch != nil {
+		for name, v := range fr.namedLocals(st, latch, len(latch.Instrs)) {
+			if _, taken := env.vars[name]; !taken {
+				env.vars[name] = v
+			}
+		}
+	}
 	// prev_<name>: the loop-carried variable <name> at the start of this iteration
 	for _, ins := range b.Instrs {
 		phi, ok := ins.(*ssa.Phi)
